@@ -68,11 +68,12 @@ struct Shadow {
     clock: AtomicUsize,
     ops: Mutex<Vec<OpLog>>,
     init: (u64, u64),
+    limits: (u64, u64),
 }
 
 impl Shadow {
-    fn new(init_msgs: u64, init_bytes: u64, free: bool) -> Shadow {
-        let fc = flow_control::create(MAX_BYTES, MAX_MSGS);
+    fn new(init_msgs: u64, init_bytes: u64, free: bool, limits: (u64, u64)) -> Shadow {
+        let fc = flow_control::create(limits.1, limits.0);
         fc.inc(init_bytes, init_msgs);
         Shadow {
             fc,
@@ -83,6 +84,7 @@ impl Shadow {
             clock: AtomicUsize::new(0),
             ops: Mutex::new(Vec::new()),
             init: (init_msgs, init_bytes),
+            limits,
         }
     }
     fn now(&self) -> usize {
@@ -131,6 +133,8 @@ struct Park {
     woken: bool,
     parked: bool,
     done: bool,
+    /// set by the monitor once the verdict is in: the waiter thread gives up instead of parking again
+    abandon: bool,
 }
 
 struct WaiterState {
@@ -185,6 +189,9 @@ fn drive_wait(sh: &Shadow, ws: &Arc<WaiterState>, spin_before: u64) -> WaitResul
                 }
                 p.woken = false;
                 p.parked = false;
+                if p.abandon {
+                    break;
+                }
             }
         }
     }
@@ -194,15 +201,15 @@ fn drive_wait(sh: &Shadow, ws: &Arc<WaiterState>, spin_before: u64) -> WaitResul
 }
 
 /// "Never spuriously": could the waiter have seen messages < max at i and bytes < max at j >= i?
-fn could_have_observed(trace: &[(u64, u64)], r: &WaitResult) -> bool {
+fn could_have_observed(trace: &[(u64, u64)], r: &WaitResult, limits: (u64, u64)) -> bool {
     let lo = r.start_completed.min(trace.len() - 1);
     let hi = r.end_started.min(trace.len() - 1);
     let mut seen_msgs_ok = false;
     for k in lo..=hi {
-        if trace[k].0 < MAX_MSGS {
+        if trace[k].0 < limits.0 {
             seen_msgs_ok = true;
         }
-        if seen_msgs_ok && trace[k].1 < MAX_BYTES {
+        if seen_msgs_ok && trace[k].1 < limits.1 {
             return true;
         }
     }
@@ -215,33 +222,45 @@ struct Script {
     muts: Vec<Vec<(bool, u64, u64)>>,
     waiters: usize,
     init: (u64, u64),
+    /// (message limit, byte limit) of the FlowControl under test
+    limits: (u64, u64),
 }
 
 /// Scripts always start without capacity and end with capacity.
 fn make_script(rng: &mut Rng, kind: u64) -> Script {
+    let mut sc = make_script_base(rng, kind);
+    // scripts that are bound by the message limit alone also run with a byte limit that stands for
+    // "unlimited" (beyond i64::MAX): the byte count is then below its limit whatever happens
+    if matches!(kind % 6, 0 | 2) && rng.below(3) == 0 {
+        sc.limits.1 = *[u64::MAX, (i64::MAX as u64) + 1, u64::MAX - 1][rng.below(3) as usize..].first().unwrap();
+    }
+    sc
+}
+
+fn make_script_base(rng: &mut Rng, kind: u64) -> Script {
     let waiters = 1 + rng.below(3) as usize;
     match kind % 6 {
         5 => {
             // both limits exhausted; messages are freed, taken again, then bytes are freed: at no
             // moment is there capacity, until the last step frees a message ("patient" script: the
             // mutator lets the waiters react to every step)
-            Script { muts: vec![vec![(false, 0, 1), (true, 0, 1), (false, 60, 0), (false, 0, 1)]], waiters, init: (MAX_MSGS, MAX_BYTES + 10) }
+            Script { muts: vec![vec![(false, 0, 1), (true, 0, 1), (false, 60, 0), (false, 0, 1)]], waiters, init: (MAX_MSGS, MAX_BYTES + 10), limits: (MAX_MSGS, MAX_BYTES) }
         }
         4 => {
             // both limits exceeded; two symmetric decrements that cross each other; the sum frees capacity
-            Script { muts: vec![vec![(false, 40, 1)], vec![(false, 40, 1)]], waiters, init: (MAX_MSGS + 1, MAX_BYTES + 50) }
+            Script { muts: vec![vec![(false, 40, 1)], vec![(false, 40, 1)]], waiters, init: (MAX_MSGS + 1, MAX_BYTES + 50), limits: (MAX_MSGS, MAX_BYTES) }
         }
         0 => {
             // full on messages; one dec releases everybody
-            Script { muts: vec![vec![(false, 0, 1)]], waiters, init: (MAX_MSGS, 10) }
+            Script { muts: vec![vec![(false, 0, 1)]], waiters, init: (MAX_MSGS, 10), limits: (MAX_MSGS, MAX_BYTES) }
         }
         1 => {
             // full on bytes and messages; two mutators free one dimension each
-            Script { muts: vec![vec![(false, 0, 1)], vec![(false, 60, 0)]], waiters, init: (MAX_MSGS, MAX_BYTES + 10) }
+            Script { muts: vec![vec![(false, 0, 1)], vec![(false, 60, 0)]], waiters, init: (MAX_MSGS, MAX_BYTES + 10), limits: (MAX_MSGS, MAX_BYTES) }
         }
         2 => {
             // churn: capacity appears, disappears, appears
-            Script { muts: vec![vec![(false, 0, 1), (true, 0, 1), (false, 0, 2)]], waiters, init: (MAX_MSGS, 0) }
+            Script { muts: vec![vec![(false, 0, 1), (true, 0, 1), (false, 0, 2)]], waiters, init: (MAX_MSGS, 0), limits: (MAX_MSGS, MAX_BYTES) }
         }
         _ => {
             // two mutators: one takes the initial surplus away in 2-3 steps, the other adds and
@@ -254,7 +273,7 @@ fn make_script(rng: &mut Rng, kind: u64) -> Script {
                 c.push((true, db, dm));
                 c.push((false, db, dm));
             }
-            Script { muts: vec![a, c], waiters, init: (MAX_MSGS + 2, MAX_BYTES + 60) }
+            Script { muts: vec![a, c], waiters, init: (MAX_MSGS + 2, MAX_BYTES + 60), limits: (MAX_MSGS, MAX_BYTES) }
         }
     }
 }
@@ -282,11 +301,11 @@ fn could_have_observed_free(sh: &Shadow, r: &WaitResult) -> bool {
             b -= o.bytes as i64;
         }
     }
-    m < MAX_MSGS as i64 && b < MAX_BYTES as i64
+    (m as i128) < sh.limits.0 as i128 && (b as i128) < sh.limits.1 as i128
 }
 
 fn run_trial_spawned(script: &Script, rng: &mut Rng, jitter: bool, free: bool) -> TrialOutcome {
-    let sh = Arc::new(Shadow::new(script.init.0, script.init.1, free));
+    let sh = Arc::new(Shadow::new(script.init.0, script.init.1, free, script.limits));
     let states: Vec<Arc<WaiterState>> = (0..script.waiters).map(|_| Arc::new(WaiterState { park: Mutex::new(Park::default()), cv: Condvar::new(), wakes: AtomicU64::new(0) })).collect();
     let go = Arc::new(Barrier::new(script.waiters + script.muts.len()));
     // tight trials: the mutators additionally meet at a spin barrier, so that their calls really overlap
@@ -352,7 +371,7 @@ fn finish_trial(sh: &Arc<Shadow>, states: &[Arc<WaiterState>], wh: Vec<std::thre
     let mut out = TrialOutcome { violation: None, inconclusive: None, parked: 0, polls: vec![] };
     // All mutators are done. The final counters are below both limits by construction.
     let fin = sh.final_state();
-    assert!(fin.0 < MAX_MSGS && fin.1 < MAX_BYTES, "script must end with capacity: {:?}", fin);
+    assert!(fin.0 < sh.limits.0 && fin.1 < sh.limits.1, "script must end with capacity: {:?}", fin);
     // never missed: decided logically
     let t0 = std::time::Instant::now();
     let mut stuck: Vec<usize> = vec![];
@@ -386,6 +405,7 @@ fn finish_trial(sh: &Arc<Shadow>, states: &[Arc<WaiterState>], wh: Vec<std::thre
             let ws = &states[i];
             let mut p = ws.park.lock().unwrap();
             p.woken = true;
+            p.abandon = true;
             ws.cv.notify_all();
         }
     }
@@ -395,11 +415,11 @@ fn finish_trial(sh: &Arc<Shadow>, states: &[Arc<WaiterState>], wh: Vec<std::thre
         if r.parked_at_least_once {
             out.parked += 1;
         }
-        let observable = if sh.free { could_have_observed_free(sh, &r) } else { could_have_observed(&trace, &r) };
+        let observable = if sh.free { could_have_observed_free(sh, &r) } else { could_have_observed(&trace, &r, sh.limits) };
         if out.violation.is_none() && !observable {
             out.violation = Some((
                 "C19:spurious-resume".into(),
-                format!("a waiter resumed although no position of the trace window [{}, {}] shows messages < {} followed by bytes < {}; trace {:?}", r.start_completed, r.end_started, MAX_MSGS, MAX_BYTES, trace),
+                format!("a waiter resumed although no position of the trace window [{}, {}] shows messages < {} followed by bytes < {}; trace {:?}", r.start_completed, r.end_started, sh.limits.0, sh.limits.1, trace),
             ));
         }
         out.polls.push(r.polls);
